@@ -1096,7 +1096,7 @@ def run(rep, tier):
         trusted_base=common.TRUSTED_BASE_COMMON,
         assumptions=ASSUMPTIONS,
         partial=PARTIAL,
-        rule="(1) ByteVec store: cases = sequences of steps over a store of ByteVec objects (new, copy, slice kept as object, append, set_byte, set_slice, set_word; values = bytes / BitVecVal / int / HalmosBitVec / fresh z3 symbols / Chunk windows into longer data / slices of the receiver or of another object / a whole ByteVec object; plain calls, the __setitem__ sugar with explicit and omitted bounds, the State wrappers of sevm.py), followed by get_byte on a grid, unwrap and get_word of every object; corpus, exhaustive short sequences, then seeded random sequences over per-case sub-grids of [0,1,2,30,31,32,33,63,64,65] so that writes land exactly on existing chunk boundaries. After EVERY step EVERY live object is compared (raised?, len, recursive chunk layout [(key,len,kind,start,data_len)], flat content; symbolic bytes by identity, else under 2 valuations) with the extracted heap model and with the flat reference. Generated cases respect the isolation proviso (an object passed whole is never a receiver afterwards). Non-trivial = some write took the aligned or general path of set_slice, split a chunk with set_byte, or was an overlapping self copy. (2) slice sugar: bv[start:stop] = bytes and bv[start:stop] over a grid of optional bounds (omitted, explicit 0, inside, at and beyond the end). (3) memory instructions: programs assembled from 1..7 of MSTORE (PUSH32 or CALLDATALOAD value) / MSTORE8 / MLOAD+MSTORE / CALLDATACOPY / CODECOPY / EXTCODECOPY (account with code, with empty code, without account) / RETURNDATACOPY (in bounds, at the end, beyond) / MCOPY (overlapping) / message calls (STATICCALL, CALL, DELEGATECALL, CALLCODE; callee = 0..3 instructions then RETURN or REVERT of a window of its memory, possibly halting; output area smaller / equal / larger than the returned data), optionally a JUMPI on the symbolic CALLVALUE forking the path (often on a still empty memory) and a final RETURN / REVERT; calldata = concrete bytes and z3 symbols; offsets and sizes from a grid around 0, 32, 64 and the current ends. The real SEVM runs the program; for every reported path the final memory (length, recursive chunk layout, content), the returndata buffer, MSIZE and the output data are compared with the flat EVM semantics (failing input) and with the extracted MemOpsModel (broken tie). Non-trivial = the path ran to its end through >= 2 instructions; distinct by hash of the case",
+        rule="(1) ByteVec store: cases = sequences of steps over a store of ByteVec objects (new, copy, slice kept as object, append, set_byte, set_slice, set_word; values = bytes / BitVecVal / int / HalmosBitVec / fresh z3 symbols / Chunk windows into longer data / slices of the receiver or of another object / a whole ByteVec object; plain calls, the __setitem__ sugar with explicit and omitted bounds, the State wrappers of sevm.py), followed by get_byte on a grid, unwrap and get_word of every object; corpus, exhaustive short sequences, then seeded random sequences over per-case sub-grids of [0,1,2,30,31,32,33,63,64,65] so that writes land exactly on existing chunk boundaries. After EVERY step EVERY live object is compared (raised?, len, recursive chunk layout [(key,len,kind,start,data_len)], flat content; symbolic bytes by identity, else under 2 valuations) with the extracted heap model and with the flat reference. Generated cases respect the isolation proviso (an object passed whole is never a receiver afterwards). Non-trivial = some write took the aligned or general path of set_slice, split a chunk with set_byte, or was an overlapping self copy. (2) slice sugar: bv[start:stop] = bytes and bv[start:stop] over a grid of optional bounds (omitted, explicit 0, inside, at and beyond the end). (3) memory instructions: programs assembled from 1..7 of MSTORE (PUSH32 or CALLDATALOAD value) / MSTORE8 / MLOAD+MSTORE / CALLDATACOPY / CODECOPY / EXTCODECOPY (account with code, with empty code, without account) / RETURNDATACOPY (in bounds, at the end, beyond) / MCOPY (overlapping) / message calls (STATICCALL, CALL, DELEGATECALL, CALLCODE; callee = 0..3 instructions then RETURN or REVERT of a window of its memory, possibly halting; output area smaller / equal / larger than the returned data) / at most one creation (CREATE, CREATE2: the init code = 0..3 instructions then RETURN or REVERT is first written to memory with MSTOREs; it reads its EMPTY calldata and its own code), optionally a JUMPI on the symbolic CALLVALUE forking the path (often on a still empty memory) and a final RETURN / REVERT; calldata = concrete bytes and z3 symbols; offsets and sizes from a grid around 0, 32, 64 and the current ends. The real SEVM runs the program; for every reported path the final memory (length, recursive chunk layout, content), the returndata buffer, MSIZE, the output data and the code of the account a creation deployed are compared with the flat EVM semantics (failing input) and with the extracted MemOpsModel (broken tie). Non-trivial = the path ran to its end through >= 2 instructions; distinct by hash of the case",
     )
 
 
